@@ -474,12 +474,9 @@ class TracksBuilder(ABC):
         node_ids = self.in_memory_geff["node_ids"]
         seg_ids = node_props["seg_id"]["values"]
 
-        # Check if any seg_id differs from node_id
-        if np.array_equal(seg_ids, node_ids):
-            # No relabeling needed
-            return seg_array.compute(), scale
-
-        # Relabel segmentation: seg_id -> node_id
+        # Relabel segmentation: seg_id -> node_id. Always go through the relabeling,
+        # also when every seg_id equals its node_id, so that labels that belong to
+        # no node are removed (and a node id of 0 is shifted) in that case as well.
         time_values = node_props[NodeAttr.TIME.value]["values"]
         new_segmentation = relabel_segmentation(
             seg_array, graph, node_ids, seg_ids, time_values
